@@ -329,6 +329,8 @@ def d4(ctx, rep):
         v = st[0].value
         if isinstance(v, ast.BoolOp) and isinstance(v.op, ast.Or) and len(v.values) == 2 and is_cp(v.values[0]) and is_sel(v.values[1]):
             fallback, verdict = v.values[1], 'ok'
+        elif isinstance(v, ast.BoolOp) and isinstance(v.op, ast.And) and len(v.values) == 2 and is_cp(v.values[0]) and is_sel(v.values[1]):
+            verdict = 'bad:`candidates and <filters>`: an explicit list is replaced by the filtered classes and no list stays empty'
         elif isinstance(v, ast.IfExp) and truth_of_cp(v.test):
             yes, no = (v.body, v.orelse) if truth_of_cp(v.test) > 0 else (v.orelse, v.body)
             if is_cp(yes) and is_sel(no):
